@@ -264,14 +264,14 @@ func cmdSelftest(args []string) {
 		}
 		badFailed := map[string]bool{}
 		for _, o := range r.VC.obls {
-			if strings.Contains(o.Name, "[bad") && o.Result.Status != "unsat" {
+			if (strings.Contains(o.Name, "[bad") || strings.Contains(o.Name, "#bad/store[")) && o.Result.Status != "unsat" {
 				badFailed[strings.SplitN(o.Name, "@", 2)[0]] = true
 			}
 		}
 		for _, o := range r.VC.obls {
 			n++
 			st := o.Result.Status
-			expectFail := strings.Contains(o.Name, "[bad")
+			expectFail := strings.Contains(o.Name, "[bad") || strings.Contains(o.Name, "#bad/store[")
 			ok := st == "unsat"
 			if o.Cover {
 				ok = st != "unsat"
